@@ -17,8 +17,8 @@
 (***************************************************************************)
 EXTENDS Naturals, Sequences
 
-Byte == 0..255
-
+\* LOCAL: other modules (e.g. Bytes) define Byte too; EXTENDing both must not clash.
+LOCAL Byte == 0..255
 LOCAL Digest(n) == CHOOSE h \in [1..n -> Byte] : TRUE
 
 (* Hashes of the byte string b: sequences of 32, 20 and 20 bytes. *)
